@@ -376,6 +376,29 @@ fn expand_calibrations(req: &Value) -> Value {
     json!({"source_body": source_body, "plain": plain, "mapped": mapped})
 }
 
+/// Call::resolve_arguments of every CALL in the body against the program's declarations and extern signatures.
+fn call_resolve(req: &Value) -> Value {
+    use quil_rs::instruction::ExternSignatureMap;
+    let program = match Program::from_str(req["program"].as_str().unwrap()) {
+        Ok(p) => p,
+        Err(e) => return json!({"input_error": format!("{e:?}")}),
+    };
+    let sigs = match ExternSignatureMap::try_from(program.extern_pragma_map.clone()) {
+        Ok(m) => m,
+        Err(e) => return json!({"input_error": format!("extern signature: {e:?}")}),
+    };
+    let mut out = vec![];
+    for i in program.body_instructions() {
+        if let Instruction::Call(call) = i {
+            out.push(match call.resolve_arguments(&program.memory_regions, &sigs) {
+                Ok(v) => json!({"ok": format!("{v:?}"), "count": v.len()}),
+                Err(e) => json!({"err": format!("{e:?}")}),
+            });
+        }
+    }
+    json!({"results": out, "signatures": format!("{sigs:?}")})
+}
+
 /// QubitGraph::gate_depth of the single block of each program, for each threshold.
 fn gate_depth(req: &Value) -> Value {
     use quil_rs::program::analysis::{BasicBlock, QubitGraph};
@@ -541,6 +564,7 @@ pub fn run(op: &str, req: &Value) -> Value {
         "calibration_match" => calibration_match(req),
         "expand_defgate_sequences" => expand_defgate_sequences(req),
         "gate_depth" => gate_depth(req),
+        "call_resolve" => call_resolve(req),
         "roles" => roles(req),
         "schedule_graph" => schedule_graph(req),
         "extern_signature_map" => extern_signature_map(req),
